@@ -700,6 +700,11 @@ func stackNud(p *parser, t *token) *token {
 
 func skipNud(p *parser, t *token) *token {
 	tok := p.Token
+	switch tok.Symbol {
+	case "package", "import", "const", "var", "type", "switch", "if", "for", "return", "break", "continue", "func":
+		// a statement keyword is no operand: taken over unparsed it would be a statement without its parts
+		panicf("%s: unexpected symbol: %s", t.Symbol, tok.Symbol)
+	}
 	p.Next()
 	return tok
 }
